@@ -2,7 +2,7 @@
 # usage: tools/seeded_run.sh <patch.diff> <tier> <ID> [<ID> ...]
 # Applies a seeded change to /repo's working tree, runs the named checks against it, and
 # undoes the change straight afterwards (the change is never committed).  One line per check.
-P="$1"; T="$2"; shift 2
+P="$(readlink -f "$1")"; T="$2"; shift 2
 cd /repo || exit 2
 if ! git diff --quiet -- src; then echo "refusing: /repo/src has uncommitted changes"; exit 2; fi
 if ! git apply --check "$P" 2>/dev/null; then echo "patch does not apply: $P"; exit 2; fi
